@@ -798,7 +798,7 @@ func searchM(start string, depth int, thorough bool, exact bool, item *int, col 
 	if quiet {
 		scratch = evid.New("C12-crosscheck")
 	}
-	nTrans := 0
+	nTrans, applySamples := 0, 0
 	for d := 0; d < depth && len(frontier) > 0; d++ {
 		next := []mNode{}
 		level := map[string]bool{}
@@ -846,7 +846,11 @@ func searchM(start string, depth int, thorough bool, exact bool, item *int, col 
 				seen[k] = true
 				if !quiet {
 					col.Inc("states")
-					if len(path) == depth || (o.Kind == "apply" && after.P != n.o.P) {
+					isApply := o.Kind == "apply" && after.P != n.o.P
+					if isApply {
+						applySamples++
+					}
+					if len(path) == depth || (isApply && applySamples <= 3) {
 						col.Sample(map[string]any{"lane": "M", "start": start, "ops": path, "policy_entries": len(after.entriesFor(policyRef)), "log_len": len(after.Log)})
 					}
 				}
@@ -910,12 +914,12 @@ func TestC12(t *testing.T) {
 	}
 
 	item := 0
-	// lane G first, inside its own time slice (half of the worker's cap) so that
+	// lane G first, inside its own time slice (40% of the worker's cap) so that
 	// neither lane can starve the other on a loaded machine
 	if os.Getenv("C12_SKIP_G") == "" {
 		var stop time.Time
 		if d, _ := strconv.Atoi(os.Getenv("VERIF_DEADLINE_S")); d > 0 {
-			stop = time.Now().Add(time.Duration(d) * time.Second / 2)
+			stop = time.Now().Add(time.Duration(d) * time.Second * 4 / 10)
 		}
 		searchG(t, depthG, thorough, &item, col, stop)
 	}
